@@ -469,6 +469,31 @@ impl Engine for BuildSim {
             }
             csvs.push(Blob::Text(extra));
         }
+        // well-formed inputs as other tools write them: CRLF line ends, a byte-order mark in front
+        if style <= 3 && rng.chance(1, 6) {
+            let crlf = rng.chance(2, 3);
+            let bom = !crlf || rng.chance(1, 3);
+            let conv = |b: &Blob| -> Blob {
+                match b {
+                    Blob::Text(t) => {
+                        let t = if crlf { t.replace('\n', "\r\n") } else { t.clone() };
+                        Blob::Text(if bom { format!("\u{feff}{}", t) } else { t })
+                    }
+                    other => other.clone(),
+                }
+            };
+            let which = rng.below(3);
+            if which != 1 {
+                for c in csvs.iter_mut() {
+                    *c = conv(c);
+                }
+            }
+            if which != 0 {
+                for m in matrices.iter_mut() {
+                    *m = conv(m);
+                }
+            }
+        }
         let mut ops = vec![];
         if !user && !rng.chance(1, 40) {
             ops.push(BuildOp::ReadConn { m: 0 });
